@@ -3,7 +3,7 @@ import LiquerModel.Ref
 import LiquerModel.Handlers.Token
 
 /-
-Protocol: `eval.session <keep:0|1> <defaults> <op> <op> …` — one whole history on one global cache.
+Protocol: `eval.session <keep:0|1|N> <defaults> <op> <op> …` — one whole history on one global cache.
   defaults := `-` | `k=canon,k=canon`         (keys hex)
   op       := `E:<hex text>` | `V:<hex text>:<canon>:<0|1>` | `XL:<hex text>:<canon>;<canon>…` | `XD:<hex text>:<hexk>=<canon>;…`
               | `R:<hex key>` | `C`
@@ -133,7 +133,7 @@ def evalH (cmd : String) (args : List String) : Option String :=
   | "eval.session", keep :: dflt :: ops => some <|
     let run (sentinel : Char) : String :=
       let env : Env := { reg := Gen.registry, defaults := kvOf dflt, dec := decWith sentinel }
-      let w0 : World := { metaKeepsData := keep == "1" }
+      let w0 : World := { metaKeepsData := keep == "1", enabled := keep != "N" }
       let (_, outs) := ops.foldl (fun (acc : World × List String) op =>
         let (w, o) := runOp env acc.1 op
         (w, acc.2 ++ [o])) (w0, [])
